@@ -143,6 +143,19 @@ def _model_case(case):
         s0 = float(models["ZNCC"].score(img, quat, pos))
         so = float(models["ZNCC"].score(img + np.float32(off), quat, pos))
         case.check(abs(s0 - so) <= 5e-4, "ZNCC score changed by adding a constant", None, s0=s0, so=so, offset=off)
+    # the molecule's orientation reaches the wedge whether or not a position accompanies it
+    if p["tilt"] != "none":
+        for name in ("ZNCC", "PCC"):
+            a1 = models[name].align(img, (1.0, 1.0, 1.0), quat)
+            a2 = models[name].align(img, (1.0, 1.0, 1.0), quat, pos)
+            case.check(np.allclose(a1.shift, a2.shift, atol=1e-6) and abs(float(a1.score) - float(a2.score)) <= 1e-6 * max(1.0, abs(float(a2.score))),
+                       f"{name}: align(img, max_shifts, quaternion) differs from align(img, max_shifts, quaternion, pos)", None,
+                       without_pos=(a1.shift, float(a1.score)), with_pos=(a2.shift, float(a2.score)), tilt=p["tilt"])
+            l1 = np.asarray(models[name].landscape(img, (1.0, 1.0, 1.0), quat))
+            l2 = np.asarray(models[name].landscape(img, (1.0, 1.0, 1.0), quat, pos))
+            case.check(l1.shape == l2.shape and np.allclose(l1, l2, atol=1e-6 * max(1.0, float(np.abs(l2).max()))),
+                       f"{name}: landscape(img, max_shifts, quaternion) differs from landscape(..., quaternion, pos)", None,
+                       tilt=p["tilt"])
     # score == landscape centre == zero-range alignment
     for name in ("ZNCC", "FSC"):
         s0 = float(models[name].score(img, quat, pos))
